@@ -66,6 +66,7 @@ package slog
 //@ func (*PrintCtx).pcAppendStringKey
 //@   props C02 C04 C05
 //@   auto
+//@   ensures [C05.key-len] len(s.buf) == old(len(s.buf)) + len(str) + ite(s.jsonMode, 2, 0) && grown(s.buf, old(s.buf)) && forall(k, 0, old(len(s.buf)), s.buf[k] == old(s.buf[k]))
 //@   ensures [C05.key-clean] implies(!s.jsonMode && s.noColor, forall(k, old(len(s.buf)), len(s.buf), s.buf[k] > 32 && s.buf[k] != 127 && s.buf[k] != 34 && s.buf[k] != 61))
 //@   ensures [C04.key-clean] implies(s.jsonMode, len(s.buf) >= old(len(s.buf)) + 2 && forall(k, old(len(s.buf))+1, len(s.buf)-1, s.buf[k] >= 32 && s.buf[k] != 127 && s.buf[k] != 34 && s.buf[k] != 92))
 
@@ -77,6 +78,7 @@ package slog
 //@ func (*PrintCtx).AddString
 //@   props C02 C04 C05
 //@   auto
+//@   ensures [C04.C05.field-clean] len(s.buf) >= old(len(s.buf)) + len(name) + ite(s.jsonMode, 2, 0) + 3 && forall(k, old(len(s.buf)) + len(name) + ite(s.jsonMode, 2, 0), len(s.buf), s.buf[k] >= 32 && s.buf[k] != 127) && forall(k, 0, old(len(s.buf)), s.buf[k] == old(s.buf[k])) && grown(s.buf, old(s.buf))
 //@   at call (*PrintCtx).pcAppendStringKey assert [C04.C05.field-key] callee.s == s && same(callee.str, name)
 //@   at call (*PrintCtx).pcAppendQuotedStringValue assert [C04.C05.field-value] callee.s == s && same(callee.str, value)
 
@@ -122,3 +124,46 @@ package slog
 //@   auto
 //@   nokeeps ghost.ioColor
 //@   ensures [C06.error-reset] s.noColor || ghost.ioColor == 0 || ghost.ioColor == old(ghost.ioColor)
+//@   at maybe-call (*PrintCtx).pcTryQuoteValue assert [C06.error-quoted] s.noColor
+//@   at maybe-call (*PrintCtx).pcAppendStringValue assert [C06.error-quoted] false
+
+// separators
+//@ func (*PrintCtx).pcAppendColon
+//@   props C02 C04 C05
+//@   auto
+//@   ensures [C05.colon] len(s.buf) == old(len(s.buf)) + 1 && s.buf[len(s.buf)-1] == ite(s.jsonMode, 58, 61) && grown(s.buf, old(s.buf)) && forall(k, 0, old(len(s.buf)), s.buf[k] == old(s.buf[k]))
+
+//@ func (*PrintCtx).pcAppendComma
+//@   props C02 C04 C05
+//@   auto
+//@   ensures [C05.comma] len(s.buf) == old(len(s.buf)) + 1 && s.buf[len(s.buf)-1] == ite(s.jsonMode, 44, 32) && grown(s.buf, old(s.buf)) && forall(k, 0, old(len(s.buf)), s.buf[k] == old(s.buf[k]))
+
+// the message field: key "msg", separator, the quoted message - nothing of the message reaches the line unescaped
+//@ func (*Entry).printMsg
+//@   props C02 C04 C05
+//@   auto
+//@   ensures [C04.C05.msg-clean] implies(pc.noColor, len(pc.buf) >= old(len(pc.buf)) + 3 + ite(pc.jsonMode, 2, 0) + 3 && forall(k, old(len(pc.buf)) + 3 + ite(pc.jsonMode, 2, 0), len(pc.buf), pc.buf[k] >= 32 && pc.buf[k] != 127))
+//@   at call (*PrintCtx).AddString assert [C04.C05.msg-field] callee.s == pc && callee.name == "msg" && implies(pc.noColor, same(callee.value, pc.msg))
+
+// the logger name: in logfmt a quoted field followed by a separator; in JSON key, colon, the name between
+// quotes (not escaped: listed as not guarded under C04), then the comma
+//@ func (*Entry).printLoggerName
+//@   props C02 C04 C05
+//@   auto
+//@   ensures [C04.C05.name-separated] implies(s.name != "" && pc.noColor, len(pc.buf) > old(len(pc.buf)) && pc.buf[len(pc.buf)-1] == ite(pc.jsonMode, 44, 32))
+//@   at call (*PrintCtx).AddString assert [C05.name-field] callee.s == pc && callee.name == "logger" && same(callee.value, s.name) && !pc.jsonMode && pc.noColor
+
+// the continuation lines are coloured one by one (padFunc hands each line to the closure, which wraps it):
+// no colour spans the line breaks between them
+//@ func (*Entry).printRestLinesOfMsg
+//@   props C02 C06
+//@   auto
+//@   at call (colorizeToolS).padFunc assert [C06.per-line] same(callee.str, pc.restLines) && callee.fn != nil
+//@   at maybe-call (colorizeToolS).wrapColorAndBg assert [C06.per-line] false
+//@   at maybe-call (colorizeToolS).pad assert [C06.per-line] false
+
+//@ func (*Entry).printRestLinesOfMsg$1
+//@   props C06
+//@   auto
+//@   requires pc != nil
+//@   at call (colorizeToolS).wrapColorAndBg assert [C06.line-wrapped] same(callee.text, line)
